@@ -2,6 +2,7 @@ import Upf.Proofs.IPPool
 import Upf.Proofs.NewPool
 import Upf.Proofs.Lockset
 import Upf.Model.LockFacts
+import Upf.Proofs.PoolWorld
 /-!
 # C06 — UE IP pool: in range, exclusive, sticky, conserved
 
@@ -75,5 +76,19 @@ example :
     let p0 : P := { free := [1, 2], inv := [] }
     let p1 := (alloc p0 7).2; let p2 := (alloc p1 8).2
     (alloc p2 9).1 = none ∧ (alloc p2 7).1 = some 1 ∧ (alloc (dealloc p2 7).2 9).1 = some 1 := by decide
+
+/-! ### at the level of the agent: the pool as the handlers use it (BESS agent model, any number of associations) -/
+
+/-- **along every history** of association setups, PFD updates, establishments (accepted, or refused at any point after an address was
+taken), deletions, reports "context not found", association endings and FAR-updating modifications, starting from the freshly built
+pool: the pool invariant holds (free ++ held is a permutation of the configured addresses — so no address is held twice and none is
+lost — and no session holds two), and every held address is held under the SEID of a stored session -/
+theorem pool_invariant_along_every_history (base : List Nat) (hb : base.Nodup) (cfg : Agent.Cfg) (g : Teid.G) (evs : List Agent.Ev)
+    (henv : Agent.EnvOK cfg { pool := some { free := base, inv := [] }, teid := g } evs) :
+    let w := evs.foldl (Agent.stepEv cfg) { pool := some { free := base, inv := [] }, teid := g }
+    Agent.PoolInv base w.pool ∧ Agent.Owned w := by
+  refine Agent.pool_run base cfg evs _ (Agent.inv_start cfg _ g) (Agent.farwf_start _ g) henv ?_ ?_
+  · exact ⟨by simp, hb, by simp⟩
+  · intro k hk; simp [Agent.poolKeys] at hk
 
 end Props.C06
